@@ -163,5 +163,25 @@ def run_case(case):
         if (t.x, t.y) != (ex, ey) or t.name != spec["name"]:
             viol.append({"what": "config_tower_xy", "tower": spec, "got": (t.x, t.y), "expected": (ex, ey)})
 
+    # the same tower objects under a different reference origin (dataclasses.replace re-runs the conversion)
+    import dataclasses
+
+    for k in range(3):
+        nlat, nlon = float(rng.uniform(-60, 60)), float(rng.uniform(-179, 179))
+        cfg2 = dataclasses.replace(cfg, domain=dataclasses.replace(cfg.domain, ref_lat=nlat, ref_lon=nlon))
+        for t, spec in zip(cfg2.towers, tw):
+            counters["config_towers"] += 1
+            ex, ey = latlon_to_xy(spec["lat"], spec["lon"], nlat, nlon)
+            if (t.x, t.y) != (ex, ey):
+                viol.append({"what": "config_tower_xy", "tower": spec, "got": (t.x, t.y), "expected": (ex, ey), "origin": (nlat, nlon),
+                             "history": "configuration re-built from the same tower objects with another reference origin"})
+        cfg = cfg2
+    # a tower exactly on the origin maps to (0, 0) whatever it was before
+    t0 = cfg.towers[0]
+    cfg3 = dataclasses.replace(cfg, domain=dataclasses.replace(cfg.domain, ref_lat=t0.lat, ref_lon=t0.lon))
+    if (cfg3.towers[0].x, cfg3.towers[0].y) != (0.0, 0.0):
+        viol.append({"what": "origin_not_zero", "ref": (t0.lat, t0.lon), "xy": (cfg3.towers[0].x, cfg3.towers[0].y),
+                     "history": "tower on the new origin of a re-built configuration"})
+
     return {"evals": counters["points"], "nontrivial": bool(sigs), "sig": sorted(sigs), "buckets": buckets,
             "resid": resid, "counters": counters, "violations": viol, "sample": sample}
